@@ -21,8 +21,8 @@ Item == { x \in [key : Keys, up : 0..T, down : 0..T, w : Weights] :
 Ord(x) == (((x.up * (T + 1) + x.down) * 8 + x.w) * 64 + x.key)
 Inputs == UNION { { s \in [1..n -> Item] : \A j \in 1..(n - 1) : Ord(s[j]) <= Ord(s[j + 1]) } : n \in 1..NI }
 
-VARIABLES items, todo, val, cur, phase
-vars == <<items, todo, val, cur, phase>>
+VARIABLES items, todo, val, cur, phase, hi, lo, n
+vars == <<items, todo, val, cur, phase, hi, lo, n>>
 ItemSet == { [key |-> items[j].key, up |-> items[j].up, down |-> items[j].down, w |-> items[j].w, i |-> j] : j \in DOMAIN items }
 TimeOf(m) == IF m.up THEN items[m.i].up ELSE items[m.i].down
 
@@ -30,6 +30,7 @@ Init == /\ items \in Inputs
         /\ todo = [i : DOMAIN items, up : BOOLEAN]
         /\ val = [k \in Keys |-> 0]
         /\ cur = 0 /\ phase = "sweep"
+        /\ hi = [k \in Keys |-> 0] /\ lo = [k \in Keys |-> 0] /\ n = [k \in Keys |-> 0]
 
 Row == /\ phase = "sweep" /\ todo # {}
        /\ \E m \in todo :
@@ -38,8 +39,13 @@ Row == /\ phase = "sweep" /\ todo # {}
              /\ val' = [val EXCEPT ![items[m.i].key] = @ + (IF m.up THEN items[m.i].w ELSE -items[m.i].w)]
              /\ cur' = TimeOf(m)
              /\ todo' = todo \ {m}
+             \* running summary of the emitted series (what describe() reports per key: count, max, min)
+             /\ LET k == items[m.i].key IN
+                  /\ hi' = [hi EXCEPT ![k] = IF n[k] = 0 THEN val'[k] ELSE Max2(@, val'[k])]
+                  /\ lo' = [lo EXCEPT ![k] = IF n[k] = 0 THEN val'[k] ELSE Min2(@, val'[k])]
+                  /\ n' = [n EXCEPT ![k] = @ + 1]
        /\ UNCHANGED <<items, phase>>
-Finish == /\ phase = "sweep" /\ todo = {} /\ phase' = "done" /\ UNCHANGED <<items, todo, val, cur>>
+Finish == /\ phase = "sweep" /\ todo = {} /\ phase' = "done" /\ UNCHANGED <<items, todo, val, cur, hi, lo, n>>
 Next == Row \/ Finish
 Spec == Init /\ [][Next]_vars
 
@@ -50,4 +56,23 @@ AllMarkers == [i : DOMAIN items, up : BOOLEAN]
 EndOfInstant == (todo # AllMarkers /\ \A x \in todo : TimeOf(x) # cur) =>
                     \A k \in Keys : val[k] = CounterAt(ItemSet, k, cur)
 EndsAtZero == phase = "done" => \A k \in Keys : val[k] = 0
+(***************************************************************************)
+(* Summary of the series (beyond C14: get_queue_length_summary /           *)
+(* get_memory_bw_summary report count, max, min per key).  With the +w     *)
+(* rows of an instant first, the largest point of a key is the declarative *)
+(* peak: the counter at the end of some instant plus what goes down at     *)
+(* that instant; the smallest point is never below 0 and never above the   *)
+(* smallest end-of-instant value; there are two points per item.           *)
+(***************************************************************************)
+OfKey(k) == { x \in ItemSet : x.key = k }
+DownAt(k, t) == SumSet({ x \in OfKey(k) : x.down = t }, [x \in ItemSet |-> x.w])
+MarkerTimes(k) == { x.up : x \in OfKey(k) } \cup { x.down : x \in OfKey(k) }
+Peak(k) == SetMax({ CounterAt(ItemSet, k, t) + DownAt(k, t) : t \in MarkerTimes(k) })
+SummaryMeaning == phase = "done" => \A k \in Keys :
+    /\ n[k] = 2 * Cardinality(OfKey(k))
+    /\ OfKey(k) # {} =>
+         /\ PlusFirst => hi[k] = Peak(k)
+         /\ hi[k] <= SumSet(OfKey(k), [x \in ItemSet |-> x.w])
+         /\ PlusFirst => lo[k] >= 0
+         /\ lo[k] <= SetMin({ CounterAt(ItemSet, k, t) : t \in MarkerTimes(k) })
 =============================================================================
